@@ -3,6 +3,7 @@
    These definitions are extracted with the model: the harness asks the driver to confirm that the paths it
    sends to the library are exactly key_path of the key. *)
 From Coq Require Import List NArith.
+From JP Require Import Peg.
 Import ListNotations.
 Local Open Scope N_scope.
 Open Scope list_scope.
@@ -17,3 +18,12 @@ Definition esc_json_byte (q b : N) : list N :=
 Definition esc_cps (q : N) (k : list N) : list N := flat_map (esc_json_byte q) k.
 (* the path text $["k"] (q = 34) or $['k'] (q = 39) *)
 Definition key_path (q : N) (k : list N) : list N := 36 :: 91 :: q :: esc_cps q k ++ [q; 93].
+
+(* the dot spelling: every symbol character (signsWithoutHyphenUnderscore of the grammar) gets a backslash *)
+Definition dot_ranges : list (N * N) := [(32, 44); (46, 46); (47, 47); (58, 64); (91, 94); (96, 96); (123, 126)].
+Definition dot_sym (c : N) : bool := in_ranges c dot_ranges.
+Definition esc_dot_cps (k : list N) : list N := flat_map (fun c => if dot_sym c then [92; c] else [c]) k.
+(* the path text $.k *)
+Definition dot_path (k : list N) : list N := 36 :: 46 :: esc_dot_cps k.
+(* keys the dot spelling is defined for: no control character *)
+Definition dot_char (c : N) : bool := negb (in_ranges c [(0, 31); (127, 127)]).
